@@ -142,7 +142,8 @@ def tlc(ctx, module, cfg=None, workers=None, timeout=900, simulate=None, depth=N
     cfg = cfg or (module + ".cfg")
     meta = os.path.join(d, "meta")
     w = str(workers or ctx.workers)
-    cmd = ["java", "-XX:+UseParallelGC", "-Xss64m"]
+    # TLC unpacks its standard modules into java.io.tmpdir (/tmp/tlc-<n>) and never removes them: keep that inside the scratch
+    cmd = ["java", "-XX:+UseParallelGC", "-Xss64m", "-Djava.io.tmpdir=" + d]
     if heap:
         cmd.append("-Xmx" + heap)
     for k, v in (jprops or {}).items():
